@@ -706,15 +706,9 @@ func checkNearLimit(l Large, c *vcommon.Ctx) *vcommon.Failure {
 	c.Class("shape/near-limit")
 	c.NonTrivial(fmt.Sprintf("near-limit/%d/%d/%d", l.Pad, l.Unit%len(nearLimitSeps), l.Inner%3))
 	if n < w && n+len(sep) > w {
-		// KNOWN on the unchanged tree (3487844): a token that fits the window
-		// is refused with "token exceeds maximum allowable size" when the
-		// window ends inside the multi-byte white-space character that FOLLOWS
-		// it (Scanner.TokenTooLarge cannot tell a cut token from a complete
-		// one followed by a cut rune).  131070 x "a" + U+2028 + "(f)" is
-		// rejected, 131070 x "a" + " (f)" is accepted.  Excluded by
-		// construction and counted.
-		c.Class("skip/near-limit-multibyte-separator")
-		return nil
+		// the window used to end inside the white-space character that follows
+		// the token (found by the round-6 audit, repaired by 77c3b1e)
+		c.Class("near-limit/separator-straddles-window")
 	}
 	ref := []byte(pre + sym + " " + post)
 	src := []byte(pre + sym + sep + post)
